@@ -3,9 +3,9 @@
    model of compiler/src/lex/lexer.rs `lex` (Model/Lexer.v); [un]/[ua] are arbitrary
    classifications of the non-ASCII code points (char::is_numeric / is_alphanumeric),
    so every theorem holds for all of Unicode. *)
-From Coq Require Import NArith List.
+From Coq Require Import NArith List Bool.
 From GV Require Import Base.Result Gen.TokenTypes Gen.Tokens Model.Lexer Spec.LexSpec
-  Proofs.C13.LexRun Proofs.C13.LexPosRun Proofs.C13.LexOp Proofs.C13.LexBlankSpec.
+  Proofs.C13.LexRun Proofs.C13.LexPosRun Proofs.C13.LexOp Proofs.C13.LexBlankSpec Proofs.C13.LexFull.
 Import ListNotations.
 Local Open Scope N_scope.
 
@@ -110,13 +110,40 @@ Theorem C13_blank_line_separates : forall un ua x pad y ts,
 Proof. exact lex_blank_line_separates. Qed.
 Print Assumptions C13_blank_line_separates.
 
-(* The clause as DESIGN.md section 8 words it (hypothesis on the prefix x instead of on the
-   covering token) is kept visible; it is NOT proved (it needs a compositional lemma for
-   lexing a prefix).  The two theorems above are the proved form; the correspondence check
-   exercises this form on the blank-line family of inputs. *)
+(* The clause as DESIGN.md section 8 words it: if x lexes on its own and does not end in a
+   line annotation, then in  x ++ pad ++ LF LF ++ y  (pad any run of spaces and tabs) a
+   Subexpression token covers the first line feed after pad. *)
+Theorem C13_blank_line_after_trailing_spaces : forall un ua x pad y tx ts,
+  lex un ua x = Ok tx ->
+  match rev tx with t :: _ => tok_type t <> TT_LineAnnotation | [] => True end ->
+  forallb (fun c => (c =? 32) || (c =? 9)) pad = true ->
+  lex un ua (x ++ pad ++ [10; 10] ++ y) = Ok ts ->
+  exists t,
+    (exists pre post, ts = pre ++ t :: post /\
+       (length (concat (map tok_text pre)) <= length x + length pad
+        < length (concat (map tok_text pre)) + length (tok_text t))%nat) /\
+    tok_type t = TT_Subexpression.
+Proof. exact lex_blank_line_full. Qed.
+Print Assumptions C13_blank_line_after_trailing_spaces.
+
 Definition C13_blank_line_full_statement : Prop :=
   forall un ua,
     blank_line_full_statement (fun s => match lex un ua s with Ok ts => Some ts | _ => None end).
+
+Theorem C13_blank_line_full_statement_holds : C13_blank_line_full_statement.
+Proof.
+  intros un ua x pad y tx ts Hx Hlast Hpad Hs.
+  destruct (lex un ua x) as [tx'| | |] eqn:Ex; try discriminate. inversion Hx; subst tx'.
+  destruct (lex un ua (x ++ pad ++ [10; 10] ++ y)) as [ts'| | |] eqn:Es; try discriminate. inversion Hs; subst ts'.
+  exact (lex_blank_line_full un ua x pad y tx ts Ex Hlast Hpad Es).
+Qed.
+Print Assumptions C13_blank_line_full_statement_holds.
+
+(* with trailing spaces before the blank line (repaired): `5 \n\n 6`, `5\t \n\n6` *)
+Example C13_ex_blank_after_spaces : forall un ua,
+  lex un ua [53; 9; 32; 10; 10; 54] =
+  Ok [mkTok [53] TT_Number 0 0; mkTok [9; 32; 10; 10] TT_Subexpression 0 1; mkTok [54] TT_Number 2 0].
+Proof. intros. vm_compute. reflexivity. Qed.
 
 (* non-vacuity: lex succeeds on inputs that exercise the repaired paths *)
 Example C13_ex_runs : forall un ua,
